@@ -249,7 +249,18 @@ def run_history(ctx, world, cfg0, history):
             return False
         return True
 
+    expanded = []
     for kind, arg in history:
+        expanded.append((kind, arg))
+    for kind, arg in expanded:
+        if kind == 's' and arg == ('n_lags', 'current') and getattr(V, '_n_lags', 0) is None:
+            # reading the current number of classes derives it from the lag edges: that is a read of `bins`
+            executed.append(('r', 'bins'))
+            res = compare('bins')
+            if res is not True:
+                return
+            toks.append('r:bins')
+            pats.append(pattern(V, directional))
         if kind == 's':
             before = cfg.get(arg[0])
             try:
